@@ -20,6 +20,11 @@ func vxGenRule(i int) ast.Clause {
 	bodies := []string{"e", "p", "q"}
 	h := heads[vxChoose(fmt.Sprintf("g%d_head", i), 2)]
 	shape := vxChoose(fmt.Sprintf("g%d_shape", i), 10)
+	if vxParam("KINDS", 1) > 1 {
+		// base facts of mixed kinds (numbers and durations): the numeric comparison of shape 3
+		// legitimately fails on a duration, so that shape is left to the numbers-only explorations
+		vxAssume(shape != 3)
+	}
 	b1 := bodies[vxChoose(fmt.Sprintf("g%d_b1", i), 3)]
 	b2 := ""
 	if shape >= 4 {
